@@ -2,7 +2,9 @@ import PegVerif.Proofs.FrontLemmas
 /-
   The hex escape `\0x<digits>` for ALL digit strings, at the level of the regenerated grammar:
   in the relational PEG semantics (`Eval`) rule `Escape` consumes the whole spelling, and the
-  actions it triggers make the builder push `Character clampRune(value)`.
+  actions it triggers make the builder push `Character value` and record nothing when the value is a
+  Unicode code point, and record the error naming the escape (which `Compile` then returns) when it
+  is not.
 
   The derivation is built by hand (the digit string is a variable, so there is nothing to
   evaluate); the grammar-dependent facts — which alternatives precede the hex alternative and that
@@ -209,7 +211,9 @@ theorem escape_hex_eval (x : Sym) (hx : x = 120 ∨ x = 88) (ds : List Sym) (hne
     exact ⟨_, Eval.name escape_body hip⟩
 
 /-- … and running `Execute()` on these tokens with the real action code against the builder model
-    pushes exactly one Character: the hex value, or U+FFFD if that is no code point. -/
+    pushes exactly one Character: the hex value, and no error is recorded, if the value is a code
+    point; otherwise the error naming the escape is recorded (the Character then holds U+FFFD, and
+    `Compile` will refuse the tree: `BState.finish`). -/
 theorem escape_hex_actions (x : Sym) (ds : List Sym) (v : Nat) (hne : ds ≠ [])
     (hv : digitsVal 16 ds 0 = some v) :
     (execute pegActs (92 :: 48 :: x :: ds)
@@ -217,7 +221,8 @@ theorem escape_hex_actions (x : Sym) (ds : List Sym) (v : Nat) (hne : ds ≠ [])
           [.node ⟨"PegText", 3, 3 + ds.length⟩ [],
            .node ⟨hexAction, 3 + ds.length, 3 + ds.length⟩ []]])).map
       (fun evs => runEvents pegTable evs BState.init) =
-    some (.ok ⟨[.leaf .character [clampRune v]], 0⟩) := by
+    some (.ok (if isCodePoint v = true then ⟨[.leaf .character [v]], 0, []⟩
+               else ⟨[.leaf .character [0xFFFD]], 0, [hexErrMsg ds]⟩)) := by
   have hslice : slice? (92 :: 48 :: x :: ds) 3 (3 + ds.length) = some ds := by
     unfold slice?
     rw [if_pos (by simp; omega)]
@@ -233,8 +238,9 @@ theorem escape_hex_actions (x : Sym) (ds : List Sym) (v : Nat) (hne : ds ≠ [])
       unfold Call.toOp
       simp +decide only [if_true, if_false]
     simp [callsToOps, this]
-  have hs := escape_hex_spec ds v ⟨[], 0⟩ hne hv
-  simp only [hop, applyOps, BState.init, hs, BState.pushFront]
+  have hs := escape_hex_spec ds v ⟨[], 0, []⟩ hne hv
+  simp only [hop, applyOps, BState.init, hs]
+  cases isCodePoint v <;> simp [BState.pushFront, BState.addErr]
 
 theorem digitVal_hex {c : Sym} (h : isHexSym c = true) : ∃ d, digitVal 16 c = some d := by
   rw [isHexSym_iff] at h
